@@ -145,8 +145,7 @@ func values(step, max int) []int {
 
 func historyBFS(kind string, max, depth int, dense bool) *explore.Scenario {
 	run := func(c *explore.EnumCtx) {
-		g := pool.New[*[]byte](max)
-		_, step := g.VerifGeometry()
+		step := stepOf(max)
 		vals := values(step, max)
 		if !dense && len(vals) > 14 {
 			// boundary subset for the large default pool: around the step, 1500/2000, two mid classes, the maximum
@@ -225,8 +224,7 @@ func pairSweep(kind string, max int, lim int) *explore.Scenario {
 			vsched.Run(vsched.Config{MaxSteps: 1 << 60}, func() {
 				// capacities: every value around each shard / power-of-two boundary
 				var caps []int
-				g := pool.New[*[]byte](max)
-				_, step := g.VerifGeometry()
+				step := stepOf(max)
 				for k := 0; k*step <= lim; k++ {
 					for _, d := range []int{-1, 0, 1, step / 2} {
 						if v := k*step + d; v >= 0 && v <= lim {
@@ -268,6 +266,9 @@ func pairSweep(kind string, max int, lim int) *explore.Scenario {
 }
 
 func isPow2(n int) bool { return n > 0 && n&(n-1) == 0 }
+
+// stepOf: the smallest size class of a pool, observed from outside (capacity of a fresh Get(1)).
+func stepOf(max int) int { return cap(*pbytes.New(max).Get(1)) }
 
 func pmathSweep(lim int) *explore.Scenario {
 	check := func(c *explore.EnumCtx, n int) {
@@ -312,19 +313,28 @@ func pmathSweep(lim int) *explore.Scenario {
 					check(c, 1<<k+d)
 				}
 			}
-			// size-class consistency of pools: class(n) >= n, class is a shard boundary, Get(n) of a fresh pool has that capacity
+			// size-class consistency, judged behaviourally: a fresh Get(n) has capacity >= n, capacities are
+			// monotone in n, and the shard Put uses for that capacity is the shard Get(n) reads (the buffer
+			// comes straight back with the always-reuse pool)
 			for _, max := range []int{1, 10, 64, 100, 1000, 65536} {
-				g := pool.New[*[]byte](max)
-				shards, step := g.VerifGeometry()
 				bp := pbytes.New(max)
+				last := 0
 				for n := 0; n <= 2*max+2 && n <= 1<<17+2; n++ {
-					cl := g.VerifClass(n)
+					b := bp.Get(n)
+					cl := cap(*b)
 					c.Count(0, 1)
-					if cl < n {
-						c.Fail("class", fmt.Sprintf("pool New(%d) (shards %d step %d): class(%d)=%d", max, shards, step, n, cl), n)
+					if cl < n || cl < last {
+						c.Fail("class", fmt.Sprintf("pool New(%d): fresh Get(%d) has capacity %d (previous size had %d)", max, n, cl, last), n)
 					}
-					if got := cap(*bp.Get(n)); got != cl {
-						c.Fail("class-get", fmt.Sprintf("pool New(%d): fresh Get(%d) has capacity %d, class %d", max, n, got, cl), n)
+					last = cl
+					if n <= max && cl > 0 {
+						id := dataPtr((*b)[:1])
+						s := (*b)[:0]
+						bp.Put(&s)
+						b2 := bp.Get(n)
+						if cap(*b2) < n || (cl >= stepOf(max) && dataPtr((*b2)[:1]) != id) {
+							c.Fail("class-put-get", fmt.Sprintf("pool New(%d): a buffer obtained with Get(%d) (capacity %d) and Put back is not what the next Get(%d) returns (capacity %d): Put and Get disagree on the size class", max, n, cl, n, cap(*b2)), n)
+						}
 					}
 				}
 			}
